@@ -29,6 +29,11 @@ func (b *RefBar) check() {
 
 // Apply applies a mutator; ops that are not mutators are ignored.
 func (b *RefBar) Apply(op h.Op) {
+	if b.Terminal() {
+		// a finished bar stays as it is (C11); what the live actor does with a
+		// late mutator is judged by C11's monitor, not by this model
+		return
+	}
 	switch op.K {
 	case h.OpIncr, h.OpEwmaIncr:
 		b.Current += op.N
